@@ -44,6 +44,28 @@ static int nE;
 static uint64_t stamp;
 static int depth;
 static long T;                     /* upper bound on tombstones */
+/* keys removed (or evicted) since the table was last known to be clean and
+ * not inserted again.  Re-inserting such a key consumes a tombstone: its
+ * probe path leads through its old slot, which is either still a tombstone
+ * (first fit takes that one or an earlier one) or has been reclaimed since,
+ * in which case T was one too high anyway.  So T may go down by one. */
+static struct { int font, glyph; } *RK;
+static int nRK;
+
+static void
+rk_add (int font, int glyph)
+{
+    if (nRK < MAXE) { RK[nRK].font = font; RK[nRK].glyph = glyph; nRK++; }
+}
+
+static int
+rk_take (int font, int glyph)
+{
+    int i;
+    for (i = 0; i < nRK; i++)
+	if (RK[i].font == font && RK[i].glyph == glyph) { RK[i] = RK[--nRK]; return 1; }
+    return 0;
+}
 
 static struct { pixman_image_t *img; uint32_t *bits; pixman_format_code_t fmt; int w, h, stride; } gi[NIMG];
 
@@ -144,7 +166,8 @@ execute (const scenario_t *sc, const char *property, result_t *res)
     /* a history generated for another table size says nothing here */
     if (sc_get (sc, "table_slots", HASH_SIZE) != HASH_SIZE) { sim_count ("scenarios_for_other_table_size_skipped", 1); return; }
     if (!E) E = calloc (MAXE, sizeof *E);
-    nE = 0; stamp = 0; depth = 0; T = 0;
+    if (!RK) RK = calloc (MAXE, sizeof *RK);
+    nE = 0; stamp = 0; depth = 0; T = 0; nRK = 0;
     memset (gi, 0, sizeof gi);
     sim_alloc_reset ();
     sim_alloc.tracking = 1;
@@ -255,8 +278,12 @@ execute (const scenario_t *sc, const char *property, result_t *res)
 		}
 		if (!res->violated && survivors != before)
 		{
-		    if (survivors == 0) T = 0;                 /* the table was cleared */
-		    else T += before - survivors;              /* evictions leave tombstones */
+		    if (survivors == 0) { T = 0; nRK = 0; }    /* the table was cleared */
+		    else
+		    {
+			T += before - survivors;               /* evictions leave tombstones */
+			for (k = 0; k < before; k++) if (!alive[k]) rk_add (E[k].font, E[k].glyph);
+		    }
 		    for (k = before - 1; k >= 0; k--) if (!alive[k]) drop (k);
 		}
 		free (alive);
@@ -306,6 +333,7 @@ execute (const scenario_t *sc, const char *property, result_t *res)
 		    entry_t *e = &E[nE++];
 		    int n32 = gi[s].stride * gi[s].h / 4;
 		    e->font = font; e->glyph = g2; e->ox = ox; e->oy = oy; e->ptr = p; e->stamp = ++stamp;
+		    if (rk_take (font, g2) && T > 0) T--;
 		    e->copy_bits = malloc (n32 * 4);
 		    memcpy (e->copy_bits, gi[s].bits, n32 * 4);
 		    e->copy = pixman_image_create_bits (gi[s].fmt, gi[s].w, gi[s].h, e->copy_bits, gi[s].stride);
@@ -343,7 +371,7 @@ execute (const scenario_t *sc, const char *property, result_t *res)
 	    pixman_glyph_cache_remove (cache, FK (font), FK (glyph));
 	    probe_armed = 0;
 	    sim_alloc_leave ();
-	    if (k >= 0) { drop (k); T++; }
+	    if (k >= 0) { drop (k); T++; rk_add (font, glyph); }
 	    probe_steps = 0; probe_armed = 1;
 	    if (pixman_glyph_cache_lookup (cache, FK (font), FK (glyph)))
 		sim_violation (res, "C17", "C17/removed-key-still-present", "remove", "lookup(%d,%d) still finds the key after remove", font, glyph);
